@@ -5,7 +5,7 @@
    public polynomial for exactly that message) is the hypothesis [recov_sound], read off
    kyber v1.3.2 sign/tbls/tbls.go and validated on every run by the correspondence. *)
 From Coq Require Import ZArith List Bool Lia.
-From DV Require Import Model.Time Model.Node Proofs.NodeProofs Gen.Consts.
+From DV Require Import Model.Time Model.Node Proofs.NodeProofs Proofs.NetTime Gen.Consts.
 Import ListNotations.
 Open Scope Z_scope.
 
@@ -49,6 +49,17 @@ Section C03.
 End C03.
 Print Assumptions C03_local.
 Print Assumptions C03_filter.
+
+(* System level (abstract network of Proofs/NetTime.v: a full signature for round r comes into
+   existence only through a Recover event over partials of t distinct members -- symbolic
+   unforgeability of threshold BLS): every beacon that exists anywhere, in any reachable state,
+   was preceded by partials of at least t distinct members for exactly its round; with fewer
+   than t contributing members none is ever produced. *)
+Theorem C03_net : forall (cr : Z -> Z) (F : list Z) (t : Z) s s',
+  (forall r, In r (n_beacons s) -> contributed t s r) -> reach cr F t s s' ->
+  forall r, In r (n_beacons s') -> contributed t s' r.
+Proof. intros cr F t s s'. exact (beacon_has_threshold cr F t s s'). Qed.
+Print Assumptions C03_net.
 
 (* non-vacuity, (n,t) = (4,3): with exactly 3 distinct valid contributors (the node's own
    partial and two members) the beacon is produced; with 2 it is not; a duplicate and a
